@@ -123,7 +123,7 @@ def step_body(ctx, case):
     except Exception:
         rdm_differs = True
     ctx.case(case, nontrivial=rdm_differs and nchol >= 2 and comm > 1e-6, classes=["step:" + kind, f"nchol={nchol}", "propagator:" + ("restricted" if restricted else "unrestricted"), f"w0={case['w0']}"])
-    R = []
+    R, RV = [], []
     hnorm = abs(float(ham["h0"])) + float(np.sum(np.abs(h1))) / 2 + float(np.sum(np.sum(np.abs(chol), axis=(1, 2)) ** 2))
     for dt in DTS:
         try:
@@ -196,13 +196,20 @@ def step_body(ctx, case):
             acc += wq[k] * I[k] * F.slater(Wu[k], Wd[k]) / ov_new[k]
         ref = F.expm_apply(-dt * (Hm - Es * __import__("scipy.sparse").sparse.identity(F.dim, format="csr")), phi, idx) / ov_old[0]
         R.append(float(np.linalg.norm(acc - ref) / np.linalg.norm(ref)))
+        RV.append((acc - ref) / np.linalg.norm(ref))
     ctx.err(f"R(dt=0.005) [{kind}]", R[-1])
+    share = measure.first_order_share(RV, DTS)
     for a, b, d in ((R[1], R[2], 0.02), (R[2], R[3], 0.01)):
         if a < 1e-11:
             ctx.count("exact-within-roundoff")
             continue
         if not (a / max(b, 1e-300) >= 3.0):
-            ctx.fail(f"average:not-second-order:{kind}:{'restricted' if restricted else 'unrestricted'}", case, f"residuals R(dt) = {R} for dt = {DTS}: R({d})/R({d / 2}) = {a / max(b, 1e-300):.2f} < 3")
+            # "each time a small dt is halved": where a cubic term opposes the quadratic one the ratio of two norms dips below 3 although
+            # nothing is first order; the Richardson estimate of the linear coefficient (from the residual vectors) tells the two apart
+            if share <= 0.2:
+                ctx.count("ratio-below-3-but-no-first-order-term(cubic-crossover)")
+                continue
+            ctx.fail(f"average:not-second-order:{kind}:{'restricted' if restricted else 'unrestricted'}", case, f"residuals R(dt) = {R} for dt = {DTS}: R({d})/R({d / 2}) = {a / max(b, 1e-300):.2f} < 3 and a term linear in dt explains {share:.0%} of R({DTS[-1]})")
             return
     bound = 50.0 * (1.0 + hnorm) ** 3 * DTS[-1] ** 2
     if not R[-1] <= bound:
